@@ -230,6 +230,47 @@ def directed(ck, coq_in):
         run_seq(ck, m, tl, tr, ops, coq_in)
 
 
+def request_battery(ck):
+    """the request path of the terminal (what agent actions use), checked directly: a login request is answered success only
+    when the server opened a session for these credentials -- also when the client already holds a connection to that server --
+    and a node executes remote commands only for sessions IT granted (a server cannot command the client that logged in to it)."""
+    for maxrem in (1, 3):
+        b = Bench(maxrem, 30, 30)
+        b.sreq(["service", "user-manager", "add_user", "user1", "pw1", False])
+        cip, sip = "192.168.1.2", "192.168.1.3"
+
+        def creq(tail):
+            return b.sim.apply_request(["network", "node", b.cname] + tail)
+        ctx = {"max_remote_sessions": maxrem, "history": []}
+        steps = [("admin", "admin", True), ("admin", "WRONG", False), ("nobody", "x", False), ("user1", "pw1", True), ("user1", "pw0", False), ("admin", "admin", True)]
+        for (u, p_, valid) in steps:
+            before = len(b.usm.remote_sessions)
+            r = creq(["service", "terminal", "node_session_remote_login", u, p_, sip])
+            after = len(b.usm.remote_sessions)
+            ctx["history"].append([u, p_, r.status, after])
+            ck.evaluations += 1
+            ck.case(canon=("login-request", maxrem, u, p_, before), nontrivial=before > 0)
+            expect_ok = valid and before < maxrem
+            if (r.status == "success") != (after == before + 1):
+                ck.violation("login-request-answer-disagrees-with-server", "login request %s/%s while the client holds %d session(s) was answered %r but the server's live remote "
+                             "sessions went %d -> %d" % (u, p_, before, r.status, before, after), dict(ctx))
+                break
+            if r.status == "success" and not expect_ok:
+                ck.violation("login-without-valid-credentials", "login request %s/%s was answered success (valid credentials: %s, sessions before: %d of %d)"
+                             % (u, p_, valid, before, maxrem), dict(ctx))
+                break
+        # reverse direction: the server, which granted the session, tries to command the client, which granted none
+        r = b.sreq(["service", "terminal", "send_remote_command", cip, {"command": ["file_system", "create", "folder", "reverse"]}])
+        ck.evaluations += 1
+        ck.case(canon=("reverse-command", maxrem), nontrivial=True)
+        if b.client.file_system.get_folder("reverse") is not None or len(b.client.user_session_manager.remote_sessions):
+            ck.violation("command-without-session-on-target", "the server sent a remote command to the client that had logged in to it: the client executed it although it "
+                         "never granted a session (answer %r)" % (r.status,), dict(ctx, answer=r.status))
+        r2 = b.sreq(["service", "terminal", "send_remote_command", cip, {"command": ["service", "user-manager", "add_user", "mallory", "m", True]}])
+        if "mallory" in b.client.user_manager.users:
+            ck.violation("command-without-session-on-target", "the server created an administrator account on the client through a session the client never granted", dict(ctx))
+
+
 def run(ck):
     ck.rule = ("sequences of add-user, disable-user, change-password, local/remote login (right and wrong credentials), remote command through live, "
                "stale and forged connection identifiers (client-side bookkeeping bypassed), logoff, ticks up to and past the time-outs and server power "
@@ -240,6 +281,7 @@ def run(ck):
     gen_tie.check(ck, ["session"])
     coq_in = []
     directed(ck, coq_in)
+    request_battery(ck)
     rng = ck.rng
     for k in range(ck.n(140, 900)):
         run_seq(ck, rng.choice([1, 2, 3]), rng.choice([2, 3, 30]), rng.choice([2, 3, 4, 30]), gen_ops(rng, rng.randint(8, 28)), coq_in)
